@@ -1,6 +1,7 @@
 import RsslVerif.Spec.Roundtrip
 import RsslVerif.Lemmas.FmtParseTables
 import RsslVerif.Lemmas.RoundtripThm
+import RsslVerif.Lemmas.RoundtripFull7
 /-!
 # C09 — printing a syntax tree and parsing it back are inverse (expression level)
 
@@ -233,5 +234,217 @@ def ternaryMiddleAssignment : Expr :=
 example : ReadsBack ternaryMiddleAssignment [] :=
   roundtrip_expr_partial ternaryMiddleAssignment (by simp [ternaryMiddleAssignment, WF]) [] (Or.inl rfl)
 example : parseAll .Standard (toks (fmtExpr ternaryMiddleAssignment)) = some (ternaryMiddleAssignment, []) := rfl
+
+/-! # Full expression language: casts, `sizeof`, template arguments, type ids (`Model/FormatFull`, `Model/ParseFull`) -/
+section Full
+open RsslVerif.Gen.SyntaxTables RsslVerif.Model.FormatFull RsslVerif.Model.ParseFull RsslVerif.Lemmas.RoundtripFull
+
+/-- **source_fingerprints.** The formatter / parser functions whose control flow is hand-modelled for types,
+declarators, casts, `sizeof`, template arguments, statements and declarations are, byte for byte (comments and white
+space aside), the ones the model was written against.  A changed arm changes a fingerprint and breaks this obligation
+until the model has been re-read against the source. -/
+theorem source_fingerprints : fingerprints = [
+  ("formatter.rs::format_type", "d83e86900d81642d"),
+  ("formatter.rs::format_type_id", "896d1c9d5dea3027"),
+  ("formatter.rs::format_type_layout", "0191290b4d467359"),
+  ("formatter.rs::format_type_modifiers", "fb763be26ee47d64"),
+  ("formatter.rs::format_scoped_identifier", "c7e98328ef2f1ab7"),
+  ("formatter.rs::format_expression_or_type", "8e488fbb9a0ed92a"),
+  ("formatter.rs::format_template_type_args", "22882aaf047c9870"),
+  ("formatter.rs::format_declarator", "72519b3dea763ee6"),
+  ("formatter.rs::format_init_declarators", "a6aaf2ef67380f1e"),
+  ("formatter.rs::format_init_declarator", "2004455c026fd649"),
+  ("formatter.rs::format_initializer", "608341352974e4da"),
+  ("formatter.rs::format_initializer_inner", "e5d93efad5993464"),
+  ("formatter.rs::format_variable_definition", "eba838305e0123ff"),
+  ("formatter.rs::format_for_init", "77387f99a2903821"),
+  ("formatter.rs::format_statement", "851bce204a360d81"),
+  ("formatter.rs::format_attributes", "6b395693600e5105"),
+  ("formatter.rs::format_attribute", "2d8ee2901cf416bf"),
+  ("formatter.rs::format_function", "49d85d5226dd2a69"),
+  ("formatter.rs::format_function_param", "06edafe0b54eae6f"),
+  ("formatter.rs::format_struct", "874644b551ea4772"),
+  ("formatter.rs::format_global_variable", "83c45667ed45906b"),
+  ("formatter.rs::format_location_annotation", "34c33f08d32d97b6"),
+  ("formatter.rs::format_semantic_annotation", "0400732ec536c60f"),
+  ("errors.rs::get_most_relevant_result", "2505c52c638c5746"),
+  ("errors.rs::get_result_significance", "e1441eecd0642dfa"),
+  ("parser.rs::parse_list_base", "0f78701638d6db4e"),
+  ("parser.rs::parse_optional", "b87cda134d4851f0"),
+  ("parser.rs::parse_arraydim", "bf8e5b16fd4abc79"),
+  ("expressions.rs::expr_leaf", "de7b23154bf0956b"),
+  ("expressions.rs::expr_in_paren", "def8686136d1bc43"),
+  ("expressions.rs::parse_expression_or_type_with_or_without_symbols", "74b162e773b9e5eb"),
+  ("expressions.rs::parse_template_args_req", "44bb80d9de927364"),
+  ("expressions.rs::parse_template_args", "1a0bf04454d4d0dc"),
+  ("expressions.rs::expr_p1::expr_p1_call", "fa6d20aff622c8c8"),
+  ("expressions.rs::expr_p1::expr_p1_member", "d94bc05f5ec4c8c3"),
+  ("expressions.rs::expr_p1::expr_p1_right", "c0452b72ee345266"),
+  ("expressions.rs::expr_p1::right_side_ops", "67ea0f8a68aeea7c"),
+  ("expressions.rs::expr_p2", "c40df69052c6a6b4"),
+  ("expressions.rs::parse_binary_operations_st", "ab202dc0478184f5"),
+  ("expressions.rs::parse_expression_resolve_symbols", "d100fa08dca97ff6"),
+  ("types.rs::parse_type_layout_internal", "b578d754752ce45d"),
+  ("types.rs::parse_type_internal", "ca0f75a7106803cc"),
+  ("types.rs::parse_type_modifiers_before", "803ee0b44f18e6bc"),
+  ("types.rs::parse_type_modifiers_after", "6fe766d05c799df8"),
+  ("types.rs::parse_type_id_internal", "2171f0334b7fe597"),
+  ("declarations.rs::parse_init_declarators", "7a5389e036f53b50"),
+  ("declarations.rs::parse_init_declarator", "e6d1a3233a196abd"),
+  ("declarations.rs::parse_declarator_internal", "8315041ced7162f7"),
+  ("declarations.rs::parse_location_annotation", "af7b00342f66cc7b"),
+  ("declarations.rs::parse_semantic", "bb4dbea2741d1f02"),
+  ("statements.rs::parse_initializer", "543427202b5482df"),
+  ("statements.rs::parse_vardef", "181bca3d57af5d04"),
+  ("statements.rs::parse_init_statement", "7f54757739ac3383"),
+  ("statements.rs::parse_attribute_base", "be7cea9025ca37bc"),
+  ("statements.rs::parse_statement", "98a553601f5e956c"),
+  ("statements.rs::parse_statement_kind", "ed144f8b976aa774"),
+  ("statements.rs::statement_block", "93f2fb5777e9a1a0"),
+  ("functions.rs::parse_function_param", "664db391b2d86622"),
+  ("functions.rs::parse_function_definition", "50a556c10f921203"),
+  ("structs.rs::parse_struct_member", "470ca87ddd983dfb"),
+  ("structs.rs::parse_struct_entry", "b768e80fbf094306"),
+  ("structs.rs::parse_struct_definition", "986a743efdefb80e")] := by decide
+
+/-- the three table checks of one modifier (see `modifier_tables_agree`) -/
+def modTableOk (m : TypeMod) : Bool :=
+  (match modBeforeStep (modTok m) with | .mod m' => m' == m | _ => false) &&
+  (match keywords.find? (fun e => e.1 == modSpell m) with
+   | some e => modTok m == .p e.2
+   | none => modTok m == .id (modSpell m)) &&
+  modAfterKw.all (fun e => e.2 != m || modTok m == .p e.1)
+
+/-- **modifier_tables_agree.** For every type modifier: `parse_type_modifiers_before` reads the token of the printed
+spelling (`Debug` of the modifier) as that modifier; the lexer's keyword table maps the spelling to that token (or the
+spelling is no keyword and the token is the identifier); `parse_type_modifiers_after` knows the modifier under the
+same token. -/
+theorem modifier_tables_agree : ∀ m : TypeMod, modTableOk m = true := by
+  intro m; cases m <;> decide
+
+/-- what may follow a complete expression (full model): nothing, or `)`, `]`, `:`, `;` -/
+def StopsX (rest : List Tok) : Prop :=
+  rest = [] ∨ ∃ t r, rest = t :: r ∧
+    (t = .p .RightParen ∨ t = .p .RightSquareBracket ∨ t = .p .Colon ∨ t = .p .Semicolon)
+
+/-- **roundtrip_xexpr_partial.** For every tree of the full expression language — the kinds of
+`roundtrip_expr_partial` plus casts `(T)e`, `sizeof(T)` / `sizeof(e)`, calls with template arguments, over type ids with
+modifiers, template arguments (nested), pointer / reference / array abstract declarators — and every set `W` of type
+names: the tokens of the printed text read back, at the top level of the parser model run with exactly the names in `W`
+accepted as types in cast / `sizeof` position, as the tree.
+
+Partial: `WF W e` is a decidable, syntactic carve-out.  It excludes, besides the literals of `LitOk`:
+* an expression argument of `sizeof` / of a template argument list with `>`, `>=`, `>>` or `,` outside parentheses
+  (`gtFree`; the real code fails there: `sizeof_shift_breaks`, `template_arg_shift_breaks`,
+  `template_arg_comma_regroups`), with a `<` operator anywhere (`template_arg_less_regroups`), or whose first token starts
+  a type (a name — in a template argument any name, in `sizeof` a name of `W` — unless it is the whole argument, which is
+  the `both` form the parser answers for a lone name);
+* a *type* in `sizeof` / template-argument position whose first token is not a keyword modifier (there the parser also
+  tries to read the text as an expression and the longer reading wins; only a lone name — `both` — and types starting
+  with a keyword modifier are proved); types in cast position are not restricted this way;
+* parenthesised binary / conditional operands whose text starts like a type (`castDeadB`: first token a name of `W`
+  followed by `<`, `*`, `&`, `[`, `const`, `volatile` or `)`, or a modifier word) — a sufficient condition for the cast
+  alternative of `expr_p2` to fail, not a necessary one;
+* declarators outside what `parse_declarator_internal` reads (`T (*)[n]`, `T*[n]`, qualifiers other than `const` /
+  `volatile` after `*`, `&&`);
+and the hypothesis `hsafe` excludes a `<` operator followed anywhere later in the stream by `>` directly before `(`
+(`less_greater_paren_regroups`: the real code reads `a < a > (…)` as a call with template arguments).
+Also not covered: `BracedInit` (no production reads it) and attributes.  The model takes the cast alternative of
+`expr_p2` whenever it succeeds (see `Model/ParseFull.lean`). -/
+theorem roundtrip_xexpr_partial (W : List String) (e : XExpr) (hwf : RsslVerif.Lemmas.RoundtripFull.WF W e) (rest : List Tok) (hrest : StopsX rest)
+    (hsafe : hasLt e = true → TmplFree (toks (fmtExprX e) ++ rest) = true) :
+    ∃ fuel, xparseLvl W fuel 15 .Standard (toks (fmtExprX e) ++ rest) = some (e, rest) := by
+  have hcl : rest = [] ∨ ∃ t r, rest = t :: r ∧ RsslVerif.Lemmas.RoundtripFull.Closes .Standard t r := by
+    rcases hrest with h | ⟨t, r, h, ht⟩
+    · exact Or.inl h
+    · refine Or.inr ⟨t, r, h, ?_⟩
+      rcases ht with h | h | h | h
+      · exact Or.inl h
+      · exact Or.inr (Or.inl h)
+      · exact Or.inr (Or.inr (Or.inl h))
+      · exact Or.inr (Or.inr (Or.inr (Or.inl h)))
+  have hno : RsslVerif.Lemmas.RoundtripFull.NoLow W 15 .Standard rest := by
+    rcases hcl with rfl | ⟨t, r, rfl, ht⟩
+    · exact RsslVerif.Lemmas.RoundtripFull.noLow_nil W _ _
+    · exact RsslVerif.Lemmas.RoundtripFull.noLow_closes W _ _ _ _ ht
+  have hin : RsslVerif.Lemmas.RoundtripFull.Inert W 15 .Standard rest := by
+    rcases hcl with rfl | ⟨t, r, rfl, ht⟩
+    · exact RsslVerif.Lemmas.RoundtripFull.inert_nil W _ _
+    · exact RsslVerif.Lemmas.RoundtripFull.inert_closes W _ _ _ _ ht
+  obtain ⟨N, h⟩ := RsslVerif.Lemmas.RoundtripFull.rt W e hwf 15 .Standard rest (e, rest) (fun h => by cases h)
+    (RsslVerif.Lemmas.RoundtripFull.lvl_le e) (Nat.le_refl _) (fun _ => rfl) hno hsafe
+    (RsslVerif.Lemmas.RoundtripFull.fin_self W e e.lvl 15 .Standard rest (RsslVerif.Lemmas.RoundtripFull.lvl_le e) (fun _ => hin))
+  exact ⟨N, h N (Nat.le_refl _)⟩
+
+/-- **roundtrip_typeid_partial.** A type id with an abstract declarator, printed by `format_type_id` in front of `)`,
+`,` or `>`, is read back by `parse_type_id` (with or without a symbol table) as the same type id: modifiers (all 27, in
+order), scoped name, template arguments, pointers with `const` / `volatile` qualifiers, references, arrays with and
+without size.  (`WFTy`: the name is not one of the identifiers `parse_type_modifiers_before` takes as modifiers; the
+template arguments satisfy `WFArg`; the declarator is one the parser has a production for.) -/
+theorem roundtrip_typeid_partial (W : List String) (mods : List TypeMod) (n : String) (targs : TArgs) (d : Decl)
+    (hwf : WFTy W (.mk mods n targs d)) (habs : d.abstr = true) (sym fol : Bool) (rest : List Tok)
+    (hsym : sym = true → W.contains n = true) (hrest : TyRest rest)
+    (hsafe : hasLtTy (.mk mods n targs d) = true → TmplFree (toks (fmtTyId (.mk mods n targs d) fol) ++ rest) = true) :
+    ∃ fuel, parseTyId W fuel sym (toks (fmtTyId (.mk mods n targs d) fol) ++ rest) = some (.mk mods n targs d, rest) := by
+  obtain ⟨N, h⟩ := rtTyp W (.mk mods n targs d) hwf habs sym fol rest hsym hrest hsafe
+  exact ⟨N, h N (Nat.le_refl _)⟩
+
+/-! ## Negation witnesses: shapes outside `WF` for which the real code does not round-trip (known findings) -/
+
+/-- `sizeof(a >> a)`: the operand is read under `Terminator::TypeList`, where `>>` is no operator — rejected -/
+theorem sizeof_shift_breaks :
+    xparseAll [] .Standard (toks (fmtExprX (.sizeof (.e (.bin .RightShift (.id "a") (.id "a")))))) = none := by decide
+
+/-- `a<a >> a>()`: the template argument is printed unparenthesised and `>>` closes the list — rejected -/
+theorem template_arg_shift_breaks :
+    (xparseAll [] .Standard (toks (fmtExprX
+      (.call (.id "a") (.cons (.e (.bin .RightShift (.id "a") (.id "a"))) .nil) .nil)))).map (·.2) ≠ some [] := by decide
+
+/-- `a<(a, a)>()` prints `a<a, a>()` and reads back with two template arguments -/
+theorem template_arg_comma_regroups :
+    xparseAll [] .Standard (toks (fmtExprX
+      (.call (.id "a") (.cons (.e (.bin .Sequence (.id "a") (.id "b"))) .nil) .nil))) =
+    some (.call (.id "a") (.cons (.both (.id "a") (.mk [] "a" .nil .empty))
+      (.cons (.both (.id "b") (.mk [] "b" .nil .empty)) .nil)) .nil, []) := by rfl
+
+/-- `a<a < b>()` reads back as `a < a<b>()` -/
+theorem template_arg_less_regroups :
+    xparseAll [] .Standard (toks (fmtExprX
+      (.call (.id "a") (.cons (.e (.bin .LessThan (.id "a") (.id "b"))) .nil) .nil))) =
+    some (.bin .LessThan (.id "a") (.call (.id "a") (.cons (.both (.id "b") (.mk [] "b" .nil .empty)) .nil) .nil), []) := by
+  rfl
+
+/-- `(a < a) > (a & a)` prints `a < a > (a & a)` and reads back as the call `a<a>(a & a)` -/
+theorem less_greater_paren_regroups :
+    xparseAll [] .Standard (toks (fmtExprX
+      (.bin .GreaterThan (.bin .LessThan (.id "a") (.id "a")) (.bin .BitwiseAnd (.id "a") (.id "a"))))) =
+    some (.call (.id "a") (.cons (.both (.id "a") (.mk [] "a" .nil .empty)) .nil)
+      (.cons (.bin .BitwiseAnd (.id "a") (.id "a")) .nil), []) := by rfl
+
+/-- non-vacuity: casts over types with modifiers, nested template arguments, pointers and arrays; `sizeof` of a type and
+of an expression; a call with template arguments; a parenthesised cast operand; all under operators of several levels -/
+def sampleX : XExpr :=
+  .bin .Assignment (.id "r")
+    (.bin .Add
+      (.cast (.mk [.Const] "vector" (.cons (.both (.id "float") (.mk [] "float" .nil .empty))
+          (.cons (.e (.lit ⟨.IntUntyped, false, 4⟩)) .nil)) (.ptr [.Const] .empty))
+        (.bin .Multiply (.id "x") (.un .Minus (.id "y"))))
+      (.bin .Multiply
+        (.sizeof (.both (.id "S") (.mk [] "S" .nil .empty)))
+        (.bin .Subtract
+          (.call (.id "f") (.cons (.t (.mk [.RowMajor] "M" .nil .empty)) (.cons (.e (.lit ⟨.IntUnsigned32, false, 2⟩)) .nil))
+            (.cons (.cast (.mk [] "S" .nil (.arr .empty (.id "n"))) (.mem (.id "p") "q")) (.cons (.id "z") .nil)))
+          (.sizeof (.e (.sub (.id "v") (.lit ⟨.IntUntyped, false, 0⟩)))))))
+
+theorem sampleX_wf : RsslVerif.Lemmas.RoundtripFull.WF ["vector", "S"] sampleX := by
+  simp [sampleX, RsslVerif.Lemmas.RoundtripFull.WF, RsslVerif.Lemmas.RoundtripFull.WFA, WFArg, WFTArgs, WFTy, WFDecl,
+    tyName, gtFree, gtFreeSub, hasLt, XExpr.lvl, kwModHead, tyMods, Decl.abstr, Decl.needsScope, Decl.startsBracket]
+  decide +kernel
+
+example : ∃ fuel, xparseLvl ["vector", "S"] fuel 15 .Standard (toks (fmtExprX sampleX) ++ []) = some (sampleX, []) :=
+  roundtrip_xexpr_partial _ sampleX sampleX_wf [] (Or.inl rfl) (fun h => by revert h; decide)
+example : xparseAll ["vector", "S"] .Standard (toks (fmtExprX sampleX)) = some (sampleX, []) := by rfl
+
+end Full
 
 end RsslVerif.Thm.C09
